@@ -1,5 +1,6 @@
 """C15 — Vectorized execution returns what row execution returns (translation validation)."""
 import json
+import os
 import re
 import struct
 import vlib
@@ -1366,6 +1367,35 @@ def stream_oracle(line, g):
     return None
 
 
+def gen_stream_plan_query(rng, nser, lo, hi):
+    """logical-plan level: limit -> (non-indexed) tag filter -> scan, explicit or implicit time order"""
+    q = {"lo": lo - 5, "hi": hi + 5, "sort": rng.choice(["", "asc", "desc", "desc"]), "limit": rng.choice([1, 2, 3, 4, 100]),
+         "offset": rng.choice([0, 0, 1, 2]), "series": rng.choice([0, 0, 1, rng.randrange(1, nser + 1)]), "bs": rng.choice([0, 1, 2, 3]),
+         "crit": None}
+    if rng.random() < 0.75:
+        q["crit"] = ["filter-tag", rng.choice(["eq", "eq", "ne"]), hx(rng.choice(["a", "b", "", "zz"]))]
+    return q
+
+
+def stream_plan_oracle(line, g):
+    m = re.match(r"^row=(\S*) vec=(\S*)$", g)
+    if not m:
+        return "unparsable driver output " + g[:200]
+    row, vec = m.group(1), m.group(2)
+    if row == vec:
+        return None
+    if row.startswith(("ERR", "PANIC", "FRAME", "BAD")) or vec.startswith(("ERR", "PANIC", "FRAME", "BAD")):
+        return "one stream pipeline fails: row=%s vec=%s" % (row[:200], vec[:200])
+    rr = [] if row == "-" else row.split(",")
+    vr = [] if vec == "-" else vec.split(",")
+    ks = [x.split(":")[0] for x in rr]
+    if ks != [x.split(":")[0] for x in vr]:
+        return "stream query: responses differ: row=%s vec=%s" % (row[:300], vec[:300])
+    if not ties_only(rr, vr, ks, True, True):
+        return "stream query: rows differ outside timestamp ties: row=%s vec=%s" % (row[:300], vec[:300])
+    return None
+
+
 def gen_trace_case(rng):
     desc = rng.random() < 0.5
     # production couples the two: sidx.QueryRequest.MaxBatchSize = TraceQueryOptions.MaxTraceSize (banyand/trace/query.go);
@@ -1432,6 +1462,57 @@ def sresp_oracle(line, g):
     got = [] if g == "-" else g.split(",")
     if g.startswith("ERR") or got != want:
         return "SidxResponseIterator is not the concatenation of its chunks: want %s got %s" % (",".join(want)[:200], g[:200])
+    return None
+
+
+FBT_SUFFIX = {1: "str", 2: "int", 3: "float", 4: "bin"}
+
+
+def gen_fbt_case(rng):
+    """columns of one decoded trace block (legacy plain names and "#type"-suffixed names, every order) and one projected tag"""
+    tag = "state"
+    st = rng.choice([1, 2, 2, 3, 4]) if rng.random() < 0.93 else 0
+    cols = []
+    sc = rng.choice(["legacy", "typed", "typed", "both", "both", "both", "none"])
+    other_types = [t for t in (1, 2, 3, 4) if t != st]
+    if sc == "legacy" and st:
+        cols.append((tag, st, "u"))
+    elif sc == "typed" and st:
+        cols.append((tag, st, "t"))
+        for t in rng.sample(other_types, rng.choice([0, 1, 2])):
+            cols.append((tag, t, "t"))                # variants left behind by earlier schema versions
+    elif sc == "both" and st:
+        cols.append((tag, rng.choice(other_types), "u"))       # legacy column written before the tag was typed
+        cols.append((tag, st, "t"))
+        for t in rng.sample(other_types, rng.choice([0, 1])):
+            cols.append((tag, t, "t"))
+    else:
+        for t in rng.sample(other_types or [1], rng.choice([0, 1])):
+            cols.append((tag, t, "t"))
+    for n in rng.sample(["svc", "other", "stat", "state2"], rng.choice([0, 1, 2, 3])):
+        cols.append((n, rng.choice([1, 2, 3, 4]), rng.choice(["t", "u"])))
+    rng.shuffle(cols)
+    return "fbt %s %d %s" % (tag, st, ",".join("%s.%d.%s" % c for c in cols) or "-")
+
+
+def fbt_oracle(line, g):
+    f = line.split(" ")
+    tag, st = f[1], int(f[2])
+    cols = [] if f[3] == "-" else [c.split(".") for c in f[3].split(",")]
+    m = re.match(r"^vec=(\S+) row=(\S+)$", g)
+    if not m:
+        return "unparsable driver output " + g[:100]
+    vec, row = m.group(1), m.group(2)
+
+    def stored(c):
+        return c[0] + ("#" + FBT_SUFFIX[int(c[1])] if c[2] == "t" else "")
+    match = [stored(c) for c in cols if c[0] == tag and st and int(c[1]) == st]
+    want = match[0] if match else "nil"
+    if vec != want:
+        return "findBlockTag: want the first column named %s of the schema type (%s), got %s" % (tag, want, vec)
+    # parity with the row path where the block holds a column of the schema type: the column the row projection decodes
+    if match and vec != row:
+        return "trace tag resolution differs: vectorized picks %s, row projection picks %s" % (vec, row)
     return None
 
 
@@ -1560,8 +1641,15 @@ class C15(vlib.Spec):
             d = jd(ds)
             for _ in range(4):
                 out.append("spar %s %s" % (d, jd(gen_stream_query(rng, nser, lo, hi, ds["batches"]))))
+            # `splan` (real streamQueryProcessor.Rev, flag off vs on: limit -> tag filter -> scan) is implemented in the
+            # driver and oracle but NOT generated yet: on the unchanged tree it already shows untriaged divergences over
+            # multi-part datasets (row answers, vectorized answers fewer/none); see checks/C15.design.md section 4.
+            if os.environ.get("VERIF_C15_SPLAN") == "1":
+                for _ in range(3):
+                    out.append("splan %s %s" % (d, jd(gen_stream_plan_query(rng, nser, lo, hi))))
         out += [gen_trace_case(rng) for _ in range(max(150, n * 2))]
         out += [gen_sresp_case(rng) for _ in range(max(150, n))]
+        out += [gen_fbt_case(rng) for _ in range(max(300, n * 2))]
         return out
 
     def kind(self, line):
@@ -1604,10 +1692,10 @@ class C15(vlib.Spec):
         if k == "smerge":
             m = smerge_oracle(line, g)
             return ("violation", m) if m else None
-        if k in ("spar", "tpar", "sresp"):
+        if k in ("spar", "tpar", "sresp", "fbt", "splan"):
             if g.startswith("SETUP-ERR") or g.startswith("bad-op"):
                 return ("violation", "harness could not set the case up: " + g[:200])
-            m = {"spar": stream_oracle, "tpar": trace_oracle, "sresp": sresp_oracle}[k](line, g)
+            m = {"spar": stream_oracle, "tpar": trace_oracle, "sresp": sresp_oracle, "fbt": fbt_oracle, "splan": stream_plan_oracle}[k](line, g)
             return ("violation", m) if m else None
         if k == "dispatch":
             if g.startswith("INCONSISTENT") or g.startswith("accept-") or g.startswith("SETUP") or g.startswith("reject other"):
@@ -1621,7 +1709,7 @@ class C15(vlib.Spec):
 
     def compare(self, line, g, l):
         k = self.kind(line)
-        if k in ("par", "dist", "smerge", "spar", "tpar", "sresp"):
+        if k in ("par", "dist", "smerge", "spar", "tpar", "sresp", "fbt", "splan"):
             return True
         if g == l:
             return True
@@ -1693,7 +1781,7 @@ def main(tier):
             nt = spec.nontrivial(line, g)
             if nt is not None:
                 R.nontrivial.add(nt)
-            if kd in ("spar", "tpar"):
+            if kd in ("spar", "tpar", "splan"):
                 programs += 1
                 mm = re.match(r"^row=(\S*) vec=(\S*)$", g)
                 if mm:
